@@ -205,6 +205,13 @@ impl Context {
         let removed_from_rc = self.decrease_ref_count(state.memory_block_index);
         if removed_from_rc {
             self.memory_blocks.remove(state.memory_block_index);
+            // the memory blocks of static function/subs that were stored after
+            // the removed block have moved down by one
+            for memory_block_index in self.static_memory_blocks.values_mut() {
+                if *memory_block_index > state.memory_block_index {
+                    *memory_block_index -= 1;
+                }
+            }
         }
         state
     }
